@@ -136,7 +136,12 @@ pub fn render(rng: &mut Rng, lines: &[Line]) -> String {
         let range = if l.lo == l.hi && rng.chance(2, 3) {
             hex(rng, l.lo)
         } else {
-            format!("{}..{}", hex(rng, l.lo), hex(rng, l.hi))
+            // (the end of a range may be written without the 0x prefix)
+            if rng.chance(1, 6) {
+                format!("{}..{:04X}", hex(rng, l.lo), l.hi)
+            } else {
+                format!("{}..{}", hex(rng, l.lo), hex(rng, l.hi))
+            }
         };
         let sep = if rng.chance(1, 3) { "\t" } else { " " };
         let classes: Vec<&str> = l.classes.iter().map(|c| CLASSES[*c].0).collect();
